@@ -413,6 +413,20 @@ func main() {
 			ex.Close()
 		}
 	}
+	blkDone, blkPops, blkPushes := 0, 0, 0
+	if prop == "C09" {
+		var bdivs []seqrun.Div
+		var bnote string
+		blkDone, blkPops, blkPushes, bdivs, bnote = blockingPhase(o, o.Pick(40, 800))
+		for _, d := range bdivs {
+			if _, ok := bySig[d.Sig]; !ok {
+				bySig[d.Sig] = d
+			}
+		}
+		if bnote != "" {
+			inconclusive = bnote
+		}
+	}
 	tcpNote := ""
 	tcpPipes, tcpCmds := 0, 0
 	tcpNames := map[string]int{}
@@ -499,6 +513,11 @@ func main() {
 			"in-process execution through server.Manager.ExecCommand with hooks of build tag verif (VerifDump/VerifCheck/VerifStripesFree)",
 			"deadlines used in these programs are far in the future or invalid, so no verdict depends on the clock",
 		}}
+	if prop == "C09" {
+		ev.Coverage["blocking_scenarios"] = blkDone
+		ev.Coverage["blocking_pops"] = blkPops
+		ev.Coverage["blocking_pushes"] = blkPushes
+	}
 	ev.Coverage["tcp_replayed_programs"] = tcpProgs
 	ev.Coverage["tcp_replayed_commands"] = tcpSteps
 	if prop == "C03" {
